@@ -435,6 +435,11 @@ func jsonValueToYANGType(b []byte, tv *sdcpb.TypedValue, schemaObject *sdcpb.Sch
 	if err := dec.Decode(&v); err != nil {
 		return nil, err
 	}
+	// a leaf of type empty carries no value, whatever stands for it in the document ([null], {}, ...);
+	// the members of a JSON object are treated the same way
+	if schemaObject.GetField().GetType().GetType() == "empty" {
+		return &sdcpb.TypedValue{Timestamp: tv.GetTimestamp(), Value: &sdcpb.TypedValue_EmptyVal{}}, nil
+	}
 	scalar := func(e any) (*sdcpb.TypedValue, error) {
 		switch e.(type) {
 		case nil, map[string]any, []any:
@@ -445,10 +450,6 @@ func jsonValueToYANGType(b []byte, tv *sdcpb.TypedValue, schemaObject *sdcpb.Sch
 	switch x := v.(type) {
 	case []any:
 		if schemaObject.GetLeaflist() == nil {
-			// [null] is the JSON encoding of the type empty
-			if len(x) == 1 && x[0] == nil && schemaObject.GetField().GetType().GetType() == "empty" {
-				return ConvertToTypedValue(schemaObject, "", tv.GetTimestamp())
-			}
 			return nil, fmt.Errorf("unexpected JSON array %v for a leaf value", x)
 		}
 		list := make([]*sdcpb.TypedValue, 0, len(x))
